@@ -748,8 +748,18 @@ func buildCase(env vh.Env, cfg *config, ci, i int) (*kase, sut.Req, *aux) {
 
 	// ---- the hostile / benign Connection header itself (last, so the twin can drop it by index)
 	if conn != "" {
+		// sometimes the tokens are spread over two Connection lines (a harmless line before or after the
+		// one that matters): RFC 7230 treats several lines as one list (added after seeded change C12k -
+		// only the first Connection line inspected - was missed)
+		split := r.Intn(3)
+		if split == 1 {
+			hs = append(hs, [2]string{"Connection", "keep-alive"})
+		}
 		ax.connIdx = len(hs)
 		hs = append(hs, [2]string{"Connection", conn})
+		if split == 2 {
+			hs = append(hs, [2]string{"Connection", "keep-alive"})
+		}
 	}
 	k.Headers = redact(hs)
 	rq := sut.Req{Method: method, Host: up.host, Target: k.Target, Headers: hs, Cookies: cookies, Body: ax.body, Raw: raw, Chunked: chunked}
